@@ -128,6 +128,14 @@ func wrun(args []string) error {
 				return err
 			}
 		}
+	case "asm":
+		// remuxing workloads: chunks assembled by the caller, AddSchema / AddChannel (every 8th leaves channels unregistered)
+		g := gen.New(*seed)
+		for i := 0; i < *n; i++ {
+			if err := do(g.AsmWorkload(fmt.Sprintf("a%d-%d", *seed, i), *size, i%8 == 7)); err != nil {
+				return err
+			}
+		}
 	case "flags":
 		// every combination of the ten flags x {unchunked, chunked-none} on n base workloads
 		g := gen.New(*seed)
